@@ -465,6 +465,7 @@ type GhostUpdate struct {
 }
 
 type LoopContract struct {
+	Ordered       *Clause // the loop iterates in a determined order: it is not a range over a map
 	Complete      *Clause // the loop is never left early: every iteration of the range happens (no break, no return from the body)
 	ReturnEnsures []Clause // must hold at every return that is dominated by the loop header (not visible to callers)
 	Updates    []GhostUpdate
@@ -894,6 +895,17 @@ func (cs *ContractSet) ParseContractFile(path, pkgPath string) error {
 					cur.Loops[n] = lc
 				}
 				sub := fields[2]
+				if sub == "ordered" {
+					c := Clause{File: path, Line: it.n, Src: "the loop iterates in a determined order (it does not range over a map)"}
+					tagsrc := strings.TrimSpace(strings.SplitN(rest, "ordered", 2)[1])
+					for strings.HasPrefix(tagsrc, "[") {
+						kk := strings.Index(tagsrc, "]")
+						c.Tags = append(c.Tags, strings.TrimSpace(tagsrc[1:kk]))
+						tagsrc = strings.TrimSpace(tagsrc[kk+1:])
+					}
+					lc.Ordered = &c
+					continue
+				}
 				if sub == "complete" {
 					c := Clause{File: path, Line: it.n, Src: "complete"}
 					tagsrc := strings.TrimSpace(strings.SplitN(rest, "complete", 2)[1])
@@ -1013,6 +1025,9 @@ func (cs *ContractSet) finalize() {
 			add(l.ReturnEnsures)
 			if l.Complete != nil {
 				all = append(all, l.Complete)
+			}
+			if l.Ordered != nil {
+				all = append(all, l.Ordered)
 			}
 			if l.Decreases != nil {
 				all = append(all, l.Decreases)
